@@ -97,3 +97,5 @@ func rmCase(root string) { _ = os.RemoveAll(filepath.Dir(root)) }
 func perm(r *rand.Rand, n int) []int { return r.Perm(n) }
 
 func repeat(s string, n int) string { return strings.Repeat(s, n) }
+
+func removeFile(p string) error { return os.Remove(p) }
